@@ -123,7 +123,18 @@ func (op *pipelineOp) exec(fm *Frame) Exception {
 			// os.Pipe sets O_CLOEXEC, which is what we want.
 			reader, writer, e := os.Pipe()
 			if e != nil {
-				return fm.errorpf(op, "failed to create pipe: %s", e)
+				// The forms before this one are already running. Tell the
+				// previous form that its reader is gone, don't start the
+				// remaining forms, and finish like a shorter pipeline would.
+				if inputIsPipe {
+					*inputPipe.sendError = errs.ReaderGone{}
+					close(inputPipe.sendStop)
+					inputPipe.readerGone.Store(true)
+					inputPipe.File.Close()
+				}
+				excs[i] = fm.errorpf(op, "failed to create pipe: %s", e)
+				wg.Add(i - nforms)
+				break
 			}
 			ch := make(chan any, pipelineChanBufferSize)
 			sendStop := make(chan struct{})
